@@ -32,22 +32,23 @@ import (
 
 // Case is the raw, replayable description of one check.
 type Case struct {
-	Op        string // validate | types | rev
-	Typ       string `json:",omitempty"` // http | dns | tls | da | unknown
-	Status    string `json:",omitempty"` // stored status before the call
-	PrevErr   string `json:",omitempty"` // error left by an earlier attempt ("" = none)
-	Value     string `json:",omitempty"`
-	ValueB    []byte `json:",omitempty"` // Value when it is not valid UTF-8 (JSON would rewrite it)
-	Token     string `json:",omitempty"`
-	Acct      int    // index into accounts of the key that signed the request; -1 = key without thumbprint
-	Strict    bool   `json:",omitempty"`
-	PortH     int    `json:",omitempty"`
-	PortT     int    `json:",omitempty"`
-	DBFail    bool   `json:",omitempty"`
-	AzSt      string `json:",omitempty"` // stored status of the owning authorization before the call ("" = pending)
-	AzExp     bool   `json:",omitempty"` // the owning authorization has expired
-	AzForeign bool   `json:",omitempty"` // the authorization loaded (id from the request URL) is another identifier's: its own challenges are all pending
-	Mut       string `json:",omitempty"` // name of the mutation that produced the response (evidence only)
+	Op        string   // validate | types | rev
+	Typ       string   `json:",omitempty"` // http | dns | tls | da | unknown
+	Status    string   `json:",omitempty"` // stored status before the call
+	PrevErr   string   `json:",omitempty"` // error left by an earlier attempt ("" = none)
+	Value     string   `json:",omitempty"`
+	ValueB    []byte   `json:",omitempty"` // Value when it is not valid UTF-8 (JSON would rewrite it)
+	Token     string   `json:",omitempty"`
+	Acct      int      // index into accounts of the key that signed the request; -1 = key without thumbprint
+	Strict    bool     `json:",omitempty"`
+	PortH     int      `json:",omitempty"`
+	PortT     int      `json:",omitempty"`
+	DBFail    bool     `json:",omitempty"`
+	AzSt      string   `json:",omitempty"` // stored status of the owning authorization before the call ("" = pending)
+	AzExp     bool     `json:",omitempty"` // the owning authorization has expired
+	AzSib     []string `json:",omitempty"` // stored statuses of the other challenges of the same authorization
+	AzForeign bool     `json:",omitempty"` // the authorization loaded (id from the request URL) is another identifier's: its own challenges are all pending
+	Mut       string   `json:",omitempty"` // name of the mutation that produced the response (evidence only)
 
 	HTTP *HTTPW `json:",omitempty"`
 	DNS  *DNSW  `json:",omitempty"`
@@ -400,6 +401,9 @@ func (k *Case) runValidate() (out string) {
 	azRec := statusName(azStatus) + ":" + c.B(time.Now().After(azExpires))
 	az := &acme.Authorization{ID: "azID", AccountID: "accID", Status: azStatus, ExpiresAt: azExpires,
 		Challenges: []*acme.Challenge{{ID: "chID", Type: ch.Type, Status: db.status}}}
+	for i, st := range k.AzSib {
+		az.Challenges = append(az.Challenges, &acme.Challenge{ID: fmt.Sprintf("sibling%d", i), Type: acme.DNS01, Status: acme.Status(st)})
+	}
 	if k.AzForeign { // a dns authorization with its three network challenges, none of them answered
 		az.Challenges = []*acme.Challenge{{ID: "d1", Type: acme.DNS01, Status: acme.StatusPending}, {ID: "d2", Type: acme.HTTP01, Status: acme.StatusPending},
 			{ID: "d3", Type: acme.TLSALPN01, Status: acme.StatusPending}}
@@ -569,19 +573,16 @@ func (k *Case) render() (string, bool) {
 	if azst == "" {
 		azst = "pending"
 	}
-	head := fmt.Sprintf("op="+k.Op+" typ=%s st=%s perr=%s azst=%s azexp=%s azforeign=%s val=%s tok=%s thumb=%s ip=%s strict=%s ph=%d pt=%d db=%s cmp=%s h=%s",
-		k.Typ, statusName(statusOf(k.Status)), perr, azst, c.B(k.AzExp), c.B(k.AzForeign), c.X(k.Value), c.X(k.Token), c.Opt(th, ok), ipField(k.Value), c.B(k.Strict), k.PortH, k.PortT,
+	head := fmt.Sprintf("op="+k.Op+" typ=%s st=%s perr=%s azst=%s azexp=%s azforeign=%s azsib=%s val=%s tok=%s thumb=%s ip=%s strict=%s ph=%d pt=%d db=%s cmp=%s h=%s",
+		k.Typ, statusName(statusOf(k.Status)), perr, azst, c.B(k.AzExp), c.B(k.AzForeign), c.List(k.AzSib), c.X(k.Value), c.X(k.Token), c.Opt(th, ok), ipField(k.Value), c.B(k.Strict), k.PortH, k.PortT,
 		c.B(!k.DBFail), c.B(k.cmpTarget()), hashTable(k))
 	var w string
 	switch {
 	case k.HTTP != nil:
 		switch {
-		case k.HTTP.Real && k.HTTP.obsErr:
-			w = "w=err"
-		case k.HTTP.Real && k.HTTP.obsReadErr:
-			w = fmt.Sprintf("w=resp:%d:!", k.HTTP.obsStatus)
-		case k.HTTP.Real && k.HTTP.obsOK:
-			w = fmt.Sprintf("w=resp:%d:%s", k.HTTP.obsStatus, c.XB(k.HTTP.obsBody))
+		case k.HTTP.Real:
+			// the model is told what the local server *serves*; what acme.NewClient() makes of it is modelled (clientGet)
+			w = fmt.Sprintf("w=real:%d:%s:%d:%s", k.HTTP.Status, c.XB(k.HTTP.Body), k.HTTP.Redirects, c.B(k.HTTP.Refused))
 		case k.HTTP.Err != "":
 			w = "w=err"
 		case k.HTTP.ReadErr:
